@@ -1,0 +1,97 @@
+//go:build verif
+
+// Contracts for the deductive checker in /verif (gvc). Comments only.
+
+package query
+
+//@ property C14
+
+// assumed contracts of the standard library
+//@ extern strings.HasPrefix(s, prefix) r
+//@   ensures r == (len(s) >= len(prefix) && forall(k, 0, len(prefix), s[k] == prefix[k]))
+//@ extern strings.HasSuffix(s, suffix) r
+//@   ensures r == (len(s) >= len(suffix) && forall(k, 0, len(suffix), s[len(s)-len(suffix)+k] == suffix[k]))
+//@ extern strconv.ParseInt(s, base, bitSize) (n, err)
+//@   ensures implies(isnil(err) && bitSize == 16, -32768 <= n && n <= 32767)
+
+// The grammar hands every Capture method the matched token texts. The lexer patterns guarantee the
+// shapes required below (a value token starts with ':' or '=', a mask token with '/'); participle and
+// its lexer are external, so these shapes are preconditions.
+
+//@ func parseValue
+//@   requires len(s) >= 1
+
+//@ func (*queryTerm).Capture
+//@   requires len(s) >= 2 && forall(k, 0, len(s), len(s[k]) >= 1)
+//@   modifies t.SubQuery, t.Key, t.ConverterName, t.Value
+
+//@ func (*maskParser).Capture
+//@   requires forall(k, 0, len(s), len(s[k]) >= 1)
+//@   modifies p.V4Mask, p.V6Mask
+//@   loop 1 invariant -1 <= rangeindex && rangeindex < len(s) && len(p.V4Mask) == 4 && len(p.V6Mask) == 16
+//@   loop 1 decreases len(s) - rangeindex
+//@   loop 2 invariant 0 <= i && len(p.V4Mask) == 4 && len(p.V6Mask) == 16
+//@   loop 2 decreases n - i
+//@   loop 3 invariant 0 <= i && len(p.V4Mask) == 4 && len(p.V6Mask) == 16
+//@   loop 3 decreases 128 - i
+//@   loop 4 invariant 0 <= i && len(p.V4Mask) == 4 && len(p.V6Mask) == 16
+//@   loop 4 decreases 32 - i
+
+// cleanNumberConditions: every loop terminates, for every list of number conditions (run-time checks are
+// assumed to pass here; each loop is verified from its invariant alone).
+//@ func cleanNumberConditions
+//@   noframe
+//@   cutloops
+//@   nosafety
+//@   loop 1 invariant 0 <= i && i <= len(*ncs)
+//@   loop 1 decreases len(*ncs) - i
+//@   loop 2 invariant 1 <= j && 0 <= i && i < len(*ncs) && i == at_loop(1, i) && len(*ncs) == at_loop(1, len(*ncs))
+//@   loop 2 decreases len(nc.Summands) - j + 1
+//@   loop 3 assume commonFactor >= 0
+//@   loop 3 invariant 1 <= j && commonFactor >= 0 && len(nc.Summands) >= 1
+//@   loop 3 invariant 0 <= i && i < len(*ncs) && i == at_loop(1, i) && len(*ncs) == at_loop(1, len(*ncs))
+//@   loop 3 decreases (len(nc.Summands) - j + 1) * 9223372036854775808 + commonFactor
+//@   loop 4 invariant commonFactor >= 1 && commonFactor < at_loop(3, commonFactor) && j == at_loop(3, j) && len(nc.Summands) == at_loop(3, len(nc.Summands)) && 1 <= j && j < len(nc.Summands)
+//@   loop 4 invariant 0 <= i && i < len(*ncs) && i == at_loop(1, i) && len(*ncs) == at_loop(1, len(*ncs))
+//@   loop 4 decreases commonFactor
+//@   loop 5 invariant commonFactor >= 1
+//@   loop 5 invariant 0 <= i && i < len(*ncs) && i == at_loop(1, i) && len(*ncs) == at_loop(1, len(*ncs))
+//@   loop 5 decreases commonFactor
+//@   loop 6 invariant -1 <= rangeindex
+//@   loop 6 invariant 0 <= i && i < len(*ncs) && i == at_loop(1, i) && len(*ncs) == at_loop(1, len(*ncs))
+//@   loop 6 decreases len(nc.Summands) - rangeindex
+//@   loop 7 invariant 1 <= i
+//@   loop 7 decreases len(*ncs) - i + 1
+//@   loop 8 invariant -1 <= rangeindex && 1 <= i && i < len(*ncs) && i == at_loop(7, i) && len(*ncs) == at_loop(7, len(*ncs))
+//@   loop 8 decreases len(a.Summands) - rangeindex
+//@   loop 9 invariant 0 <= i
+//@   loop 9 decreases len(*ncs) - i + 1
+//@   loop 10 invariant -1 <= rangeindex && 0 <= i && i < len(*ncs) && i == at_loop(9, i) && len(*ncs) == at_loop(9, len(*ncs))
+//@   loop 10 decreases len(nc.Summands) - rangeindex
+
+// cleanFlagConditions: every loop terminates (run-time checks assumed to pass; range loops have a fixed
+// bound and need no annotation). The three enumeration loops walk a 16 bit value down to zero or up to 0xffff.
+//@ bv uint16
+//@ func cleanFlagConditions
+//@   noframe
+//@   cutloops
+//@   nosafety
+//@   loop 2 invariant -1 <= i && i <= len(fc.SubQueries) + 1
+//@   loop 2 decreases 2*len(fc.SubQueries) - i + 1
+//@   loop 3 decreases 65535 - int(v)
+//@   loop 8 invariant 0 <= bit && bit <= 16
+//@   loop 8 decreases 16 - bit
+//@   loop 9 invariant bit == at_loop(8, bit) && 0 <= bit && bit < 16
+//@   loop 9 decreases int(v)
+//@   loop 10 decreases int(v)
+
+// The sort order of tag conditions (what makes the normal form canonical): the comparator equals
+// tagLess, and tagLess is a strict total order on (sub-query, tag name) keys.
+//@ pure tagLess(s1 string, t1 string, s2 string, t2 string) bool = ite(s1 != s2, s1 < s2, t1 < t2)
+//@ lemma tagless_asym: forall(string, s1, 0, inf, forall(string, t1, 0, inf, forall(string, s2, 0, inf, forall(string, t2, 0, inf, !(tagLess(s1, t1, s2, t2) && tagLess(s2, t2, s1, t1))))))
+//@ lemma tagless_total: forall(string, s1, 0, inf, forall(string, t1, 0, inf, forall(string, s2, 0, inf, forall(string, t2, 0, inf, (s1 == s2 && t1 == t2) || tagLess(s1, t1, s2, t2) || tagLess(s2, t2, s1, t1)))))
+//@ lemma tagless_trans: forall(string, s1, 0, inf, forall(string, t1, 0, inf, forall(string, s2, 0, inf, forall(string, t2, 0, inf, forall(string, s3, 0, inf, forall(string, t3, 0, inf, \
+//@     implies(tagLess(s1, t1, s2, t2) && tagLess(s2, t2, s3, t3), tagLess(s1, t1, s3, t3))))))))
+//@ func cleanTagConditions$1
+//@   requires 0 <= i && i < len(*lcs) && 0 <= j && j < len(*lcs)
+//@   ensures result == tagLess((*lcs)[i].SubQuery, (*lcs)[i].TagName, (*lcs)[j].SubQuery, (*lcs)[j].TagName)
